@@ -124,6 +124,11 @@ func (w *World) RunScript(lines []string) (err error) {
 			w.net.mu.Unlock()
 			atomic.StoreInt32(&w.net.openSubs, 0)
 			w.acSimple = a["ac"] == "simple"
+			w.maxHist = nil
+			if v, ok := a["maxhist"]; ok {
+				n := atoi(v)
+				w.maxHist = &n
+			}
 			w.acWrite = write
 			if a["unreach"] == "fail" {
 				w.blocks.mu.Lock()
